@@ -9,7 +9,7 @@
    a canonical receiver of precision p and unchanged mode (after an ErrNaN too).
    In the model a panic other than ErrNaN is the result CrashR. *)
 From Coq Require Import ZArith QArith.
-From Dec Require Import L3.Decimal L3.Round L3.Arith L3.ArithProofs L3.SpecialProofs.
+From Dec Require Import Base.QPow L3.Decimal L3.Round L3.Arith L3.ArithProofs L3.SpecialProofs L3.FmaProofs L3.SpecialProofs2.
 Open Scope Z_scope.
 
 Theorem C04_add_special : forall zx zy z x y,
@@ -78,10 +78,60 @@ Theorem C04_quo_no_other_panic : forall z x y,
 Proof. exact Quo_no_crash. Qed.
 Print Assumptions C04_quo_no_other_panic.
 
+Theorem C04_sub_no_other_panic : forall zx zy z x y,
+  WF x -> WF y -> 0 <= prec z <= MaxPrec -> (zx = true -> z = x) -> (zy = true -> z = y) ->
+  add_span x y + 40 < 4294967296 - 18 -> Sub zx zy z x y <> CrashR.
+Proof. exact Sub_no_crash. Qed.
+Print Assumptions C04_sub_no_other_panic.
+
+(* FMA(x, y, u) with zu = "the receiver is u".  `fma_table` (L3/SpecialProofs2.v) is
+   mul_table for x*y followed by add_table for (x*y) + u: an invalid product is SNaN
+   whatever u; an infinite product gives that infinity unless u is the opposite infinity
+   (SNaN); an exact zero product gives u (infinite u: SVal; +-0: the zero-sum sign rule;
+   finite u: SCopyY, see C04_fma_zero_product); x and y both finite: SFinite (C03, and
+   C04_fma_finite_inf for an infinite u).  eff_prec3 = the receiver's precision or, if 0,
+   the largest operand precision. *)
+Theorem C04_fma_special : forall zu z x y u,
+  WF x -> WF y -> WF u -> 0 <= prec z <= MaxPrec -> (zu = true -> z = u) ->
+  SpecialPost z (eff_prec3 z x y u) (fma_table (dmode z) x y u) (FMA zu z x y u).
+Proof. exact FMA_special. Qed.
+Print Assumptions C04_fma_special.
+
+Theorem C04_fma_zero_product : forall zu z x y u,
+  WF x -> WF y -> WF u -> dform u = Ffinite ->
+  (dform x = Fzero /\ dform y <> Finf) \/ (dform y = Fzero /\ dform x <> Finf) ->
+  mdigits (mant u) < 4294967296 - 18 -> 0 <= prec z <= MaxPrec -> (zu = true -> z = u) ->
+  OpPost (eff_prec3 z x y u) (dmode z) (neg u) (mag u) (FMA zu z x y u).
+Proof. exact FMA_zero_product. Qed.
+Print Assumptions C04_fma_zero_product.
+
+Theorem C04_fma_finite_inf : forall zu z x y u,
+  WF x -> WF y -> WF u -> dform x = Ffinite -> dform y = Ffinite -> dform u = Finf ->
+  0 <= prec z <= MaxPrec -> (zu = true -> z = u) ->
+  mdigits (mant x) + mdigits (mant y) < 4294967296 - 18 ->
+  (mag x * mag y < scaled 1 MaxExp)%Q ->
+  SpecialPost z (eff_prec3 z x y u) (SVal Finf (neg u)) (FMA zu z x y u).
+Proof. exact FMA_finite_inf. Qed.
+Print Assumptions C04_fma_finite_inf.
+
+(* FMA raises ErrNaN exactly for 0*Inf, Inf*0, and an infinite product plus the opposite
+   infinity.  For ALL operands, canonical or not, except that for finite x, y and infinite u
+   the exact product must stay below 10^MaxExp: beyond it the product is first stored as an
+   infinity and FMA raises ErrNaN on a valid operation (FMA_overflow_inf_nan in
+   L3/SpecialProofs2.v: FMA(1e1999999999, 1e1999999999, -Inf); known finding K3). *)
+Theorem C04_fma_nan_iff : forall zu z x y u,
+  (dform x = Ffinite -> dform y = Ffinite -> dform u = Finf ->
+     WF x /\ WF y /\ mdigits (mant x) + mdigits (mant y) < 4294967296 - 18 /\
+     (mag x * mag y < scaled 1 MaxExp)%Q) ->
+  ((exists z', FMA zu z x y u = NaNR z') <->
+   (dform x = Fzero /\ dform y = Finf) \/ (dform x = Finf /\ dform y = Fzero) \/
+   ((dform x = Finf \/ dform y = Finf) /\ dform u = Finf /\ xorb (neg x) (neg y) <> neg u)).
+Proof. exact FMA_nan_iff. Qed.
+Print Assumptions C04_fma_nan_iff.
+
 (* Not yet stated as theorems (covered by the correspondence run and the
    independent class table of harness/props/C04.py only):
-   C04_fma_special / C04_fma_nan_iff (FMA forms of the invalid operations),
-   C04_sqrt_negative, C04_setfloat64_nan, C04_sub_no_other_panic. *)
+   C04_sqrt_negative, C04_setfloat64_nan, C04_fma_no_other_panic. *)
 
 Example C04_witness :
   let pinf := mkDec [] 0 0 ToNearestEven Exact Finf false in
